@@ -21,7 +21,8 @@ NAMES = ["a", "b", "c", "cell__a", "cell-b", "t-x", "t_y", "wavelength", "o11", 
 STR_PLAIN = ["P21/c", "x=y", "0x10", "-", "abc", "Fm-3m", "1,5", "True", "None", "#c", "a-b",
              "file.par", "e", "--5", "1e", "1.2.3", "1/2", "0b1", "five", "_1"]
 STR_NUMERIC = ["12", "007", "+5", "5.", "1e5", "1_0", "inf", "1e400", "-0", "-0.0", ".5", "1E-3",
-               "-12", "0", "3.25", "Infinity", "-inf", "1e22", "9007199254740993", "0.1"]
+               "-12", "0", "3.25", "Infinity", "-inf", "1e22", "9007199254740993", "0.1",
+               "1" + "0" * 320, "-" + "9" * 400]
 FLOAT_SPECIAL = [-0.0, 0.0, 5.0, 1e22, 5e-324, float("inf"), float("-inf"), 1.0 / 3.0, 1e-7,
                  123456789.123, 2.2250738585072014e-308, 1.7976931348623157e308, -1.5, 1e16, 0.1]
 BUFSIZES = [1, 2, 7, 16, 64, 512, 8192]
@@ -92,12 +93,12 @@ def gen_value(rng, allow_numeric_str=True):
         if m == 1:
             return rng.between(-10 ** 6, 10 ** 6)
         if m == 2:
-            return (1 << rng.between(50, 999)) + rng.between(-3, 3)
+            return (1 << rng.between(50, 1400)) + rng.between(-3, 3)
         if m == 3:
-            return -(1 << rng.between(50, 999)) + rng.between(-3, 3)
+            return -(1 << rng.between(50, 1400)) + rng.between(-3, 3)
         if m == 4:
             return rng.bits(64)
-        return 10 ** rng.between(1, 300)
+        return 10 ** rng.between(1, 400)
     if k == "float":
         while True:
             import struct
@@ -557,6 +558,7 @@ def execute(trace):
     io.open = sim_open
     try:
         try:
+            site = "start"
             for opi, op in enumerate(trace["ops"]):
                 kind = op[0]
                 site = kind
@@ -782,6 +784,17 @@ def execute(trace):
         except _Violation as v:
             violation = v.v
             violation["op_index"] = len(events)
+        except core.HarnessError:
+            raise
+        except Exception as e:  # noqa -- an API call of the code under test raised: that is a verdict, not a harness fault
+            import traceback as _tb
+            tb = _tb.extract_tb(e.__traceback__)
+            inside = [fr for fr in tb if "/xfab/" in fr.filename.replace("\\", "/")]
+            if not inside:
+                raise core.HarnessError("simulator raised %s: %s" % (type(e).__name__, e))
+            violation = {"clause": "API call raised %s" % type(e).__name__, "site": site,
+                         "detail": "%s at %s:%d" % (str(e)[:120], inside[-1].filename.split("/xfab/")[-1], inside[-1].lineno),
+                         "op_index": len(events)}
     finally:
         builtins.open = real_open
         io.open = real_io_open
@@ -899,7 +912,7 @@ def coverage_extra(prop, merged, pre):
 
 
 def assumptions(prop):
-    return ["ints are bounded by |v| < 2**1000 + 3 and floats are NaN-free (file format / statement domain)",
+    return ["ints are bounded by |v| < 2**1401 (beyond the float range on purpose) and floats are NaN-free",
             "names and string values are non-empty, whitespace-free printable ASCII; no hyphen/underscore twin names",
             "no power-loss durability is asserted: the code never fsyncs and C19 does not promise it",
             "the text layer is constructed with utf-8 (the real default is locale dependent; content is ASCII)"]
